@@ -1,5 +1,5 @@
 import AquaVerif.Model.InitWC
-import AquaVerif.Proofs.Basic
+import AquaVerif.Proofs.PowSq
 /-
 Lemmas about the initial water content (`Model/InitWC.lean`), property C18 (second half).
 -/
@@ -319,10 +319,13 @@ theorem padPoints_single (zSoil d v : α) (hd : 0 < d) (hz : d < zSoil) :
 example : interp (3 / 2 : ℚ) [(0, 1), (1, 2), (2, 4)] = some 3 := by
   norm_num [interp, interpGo]
 
-private def idF : Fn ℚ := ⟨id, id, id, fun x _ => x, id, id, id, id, id⟩
+private def idF : Fn ℚ :=
+  ⟨id, id, id, fun x y => if y = 2 then x * x else x, id, id, id, id, id⟩
 private def c1 : Comp ℚ := ⟨1/10, 1/10, 1/20, 1/2, 3/10, 1/10, 1/20, 3/4, 500, 100, 0, 0, 1⟩
 private def c2 : Comp ℚ := ⟨1/10, 2/10, 3/20, 1/2, 3/10, 1/10, 1/20, 3/4, 500, 100, 0, 0, 1⟩
 private def c3 : Comp ℚ := ⟨1/10, 3/10, 5/20, 46/100, 31/100, 15/100, 3/40, 3/4, 500, 100, 0, 0, 2⟩
+
+example : PowSqLaw idF := ⟨fun x => by simp [idF]⟩
 
 /-- layer 1 at field capacity, layer 2 at saturation -/
 example : (initWC idF [c1, c2, c3] false 0 (3/10) .prop .layer
